@@ -316,8 +316,9 @@ func registerIntrinsics2(in *Interp) {
 	// clock: arbitrary non-decreasing milliseconds
 	r[RepoModule+"/runtime.now"] = func(in *Interp, fr *Frame, a []V) V {
 		if in.concreteGen != nil {
-			in.clockN++
-			return BVConst(uint64(1_700_000_000_000+in.clockN), 64)
+			// translator validation: no time passes (natively the harness runs in
+			// well under the limits the harnesses allow)
+			return BVConst(uint64(1_700_000_000_000), 64)
 		}
 		in.specAbortIf("clock in region")
 		t := in.freshVar("clock", BVSort(64))
